@@ -179,7 +179,8 @@ theorem primary_set_emits (recur : Node → Sid → Bytes → Node × Out) (P : 
         | (n'', r', evs') => (n'', r', evs ++ evs')
     ((∃ k v, (dbP.setValue c).2.1 = .set k v) →
         res.1.dbs = AL.put P.dbs dbP.name (dbP.setValue c).1 ∧
-        replLines res.2.2 = [rpLine (P.clock + 1) (replicateMsg dbP.name key value ver)] ∧ res.1.role = P.role) ∧
+        replLines res.2.2 = [rpLine (P.clock + 1) (replicateMsg dbP.name key value ver)] ∧ res.1.role = P.role ∧
+        res.1.pending = P.pending ∧ res.1.members = P.members ∧ res.1.addr = P.addr) ∧
     ((¬ ∃ k v, (dbP.setValue c).2.1 = .set k v) → res.1.dbs = P.dbs ∧ replLines res.2.2 = [] ∧ res.1.role = P.role) := by
   obtain ⟨d, hsel, hd⟩ := safeAccess_selected P sid key .write dbP hacc
   have hname : dbP.name = d := hnames d dbP hd
@@ -211,10 +212,13 @@ theorem primary_set_emits (recur : Node → Sid → Bytes → Node × Out) (P : 
         simp only [Node.replicateRequest, Resp.isError, hsel, hfound, Option.isNone_some, Bool.false_eq_true, if_false,
           Node.replicateRequestCore, Node.replicateWeb, Node.tick, Option.getD_some] at hres
         rw [hres]
-        refine ⟨?_, ?_, ?_⟩
+        refine ⟨?_, ?_, ?_, ?_, ?_, ?_⟩
         · simp [Node.setDb, hname, hnm]
         · rw [replLines_append, replLines_pushes]
           simp [replLines, rpLine, Node.setDb, hname]
+        · simp [Node.setDb]
+        · simp [Node.setDb]
+        · simp [Node.setDb]
         · simp [Node.setDb]
       | versionError k ov vv old ch st =>
         simp only [] at hres
@@ -273,7 +277,8 @@ theorem C04_write_end_to_end (recur : Node → Sid → Bytes → Node × Out) (P
   have hag := setValue_agree dbP dbT cP cT hagree hsame
   have hP : ((∃ k v, (dbP.setValue cP).2.1 = .set k v) →
         res.1.dbs = AL.put P.dbs dbP.name (dbP.setValue cP).1 ∧
-        replLines res.2.2 = [rpLine (P.clock + 1) (replicateMsg dbP.name key value ver)] ∧ res.1.role = P.role) ∧
+        replLines res.2.2 = [rpLine (P.clock + 1) (replicateMsg dbP.name key value ver)] ∧ res.1.role = P.role ∧
+        res.1.pending = P.pending ∧ res.1.members = P.members ∧ res.1.addr = P.addr) ∧
       ((¬ ∃ k v, (dbP.setValue cP).2.1 = .set k v) → res.1.dbs = P.dbs ∧ replLines res.2.2 = [] ∧ res.1.role = P.role) :=
     primary_set_emits recur P sid key value ver dbP hnP hrole hacc hsP
   by_cases hok : ∃ k v, (dbP.setValue cP).2.1 = .set k v
@@ -395,12 +400,13 @@ theorem good_write (recur : Node → Sid → Bytes → Node × Out) (fuel : Nat)
     have hP : ((∃ k v, (dbP.setValue cP).2.1 = .set k v) →
           (primaryStep recur P w).1.dbs = AL.put P.dbs dbP.name (dbP.setValue cP).1 ∧
           replLines (primaryStep recur P w).2.2 = [rpLine (P.clock + 1) (replicateMsg dbP.name w.key w.value w.ver)] ∧
-          (primaryStep recur P w).1.role = P.role) ∧
+          (primaryStep recur P w).1.role = P.role ∧ (primaryStep recur P w).1.pending = P.pending ∧
+          (primaryStep recur P w).1.members = P.members ∧ (primaryStep recur P w).1.addr = P.addr) ∧
         ((¬ ∃ k v, (dbP.setValue cP).2.1 = .set k v) →
           (primaryStep recur P w).1.dbs = P.dbs ∧ replLines (primaryStep recur P w).2.2 = [] ∧ (primaryStep recur P w).1.role = P.role) :=
       primary_set_emits recur P w.sid w.key w.value w.ver dbP hnP hrole hacc hsP
     by_cases hok : ∃ k v, (dbP.setValue cP).2.1 = .set k v
-    · obtain ⟨hdbs, hlines, hr⟩ := hP.1 hok
+    · obtain ⟨hdbs, hlines, hr, _, _, _⟩ := hP.1 hok
       have hokT := hag.2.1 hok
       obtain ⟨hsdbs, hssess⟩ := secondary_applies_set T link (P.clock + 1) dbP.name w.key w.value w.ver dbT fuel hlink hdT' hwo hv hclock
       have hskv := (setKeyValue_none T dbT w.key w.value w.ver hsT).1 hokT
